@@ -26,12 +26,13 @@ class CBImm11Relocation(CRel):
         bv[31:32] = rel20 >> 19 & 0x1
         return data
 
-    def can_shrink(self, sym_value, reloc_value):
+    def can_shrink(self, sym_value, reloc_value, data=None):
         """Test if we can optimize."""
         assert sym_value % 2 == 0
         assert reloc_value % 2 == 0
         offset = sym_value - reloc_value
-        return isinsrange(12, offset)
+        # c.j does not link: only `jal x0, target` can become c.j
+        return isinsrange(12, offset) and jal_rd(data) in (None, 0)
 
     def do_shrink(self, sym_value, data, reloc_value):
         """Optimize instruction!
@@ -69,11 +70,12 @@ class CBlImm11Relocation(CRel):
         bv[31:32] = rel20 >> 19 & 0x1
         return data
 
-    def can_shrink(self, sym_value, reloc_value):
+    def can_shrink(self, sym_value, reloc_value, data=None):
         assert sym_value % 2 == 0
         assert reloc_value % 2 == 0
         offset = sym_value - reloc_value
-        return isinsrange(12, offset)
+        # c.jal links through ra: only `jal ra, target` can become c.jal
+        return isinsrange(12, offset) and jal_rd(data) in (None, 1)
 
     def do_shrink(self, sym_value, data, reloc_value):
         assert sym_value % 2 == 0
@@ -129,6 +131,13 @@ def apply_cool_mapping(bv, rel11):
     bv[9:11] = rel11 >> 7 & 0x3
     bv[11:12] = rel11 >> 3 & 0x1
     bv[12:13] = rel11 >> 10 & 0x1
+
+
+def jal_rd(data):
+    """The rd field of the 32 bits jal instruction in data, if given."""
+    if data is None:
+        return None
+    return (int.from_bytes(bytes(data[:4]), "little") >> 7) & 0x1F
 
 
 def isinsrange(bits, val):
